@@ -118,8 +118,15 @@ def run(pid, spec, tier, seed):
                                                      seed=seed, tier=tier, n_diverging_cases=sum(r["bad_cases"] for r in runs)))
                 violations.append(("corr", rp, " no-failing-input-found"))
             if proof_broken:
-                rp = C.write_replay(pid, "proof", dict(property=pid, kind="proof-obligation", theorems=proof_broken,
-                                                      lean_output=audit["output"][-3000:], facts=facts_note))
+                payload = dict(property=pid, kind="proof-obligation", theorems=proof_broken,
+                               lean_output=audit["output"][-3000:], facts=facts_note)
+                if spec.get("diagnose"):
+                    try:
+                        mod = __import__("checks." + spec["diagnose"], fromlist=["diagnose"])
+                        payload.update(mod.diagnose(audit))
+                    except Exception as e:
+                        payload["diagnosis_error"] = str(e)
+                rp = C.write_replay(pid, "proof", payload)
                 violations.append(("proof", rp, " no-failing-input-found"))
 
         for l in known_lines:
